@@ -135,7 +135,7 @@ contract(BLOCK, 'BlockParser.break_separator', 'C18',
 			'index == len(text) or len(code_stack(text, TOKS12, 0, index)) == 0',
 			'blocks == blocks_upto(text, delimiter, TOKS12, index)',
 			'begin == seg_begin(text, delimiter, TOKS12, index)',
-			'begin <= index',
+			'0 <= begin', 'begin <= index',
 		],
 		decreases='len(text) - index',
 		hints_end=[
